@@ -42,6 +42,7 @@ type Report struct {
 	Extra    map[string]interface{}
 	Infra    []string // infrastructure failures (exit 2)
 	keyCount map[string]int
+	extraKeys []string // development mode ALL (mutation sweep)
 }
 
 func NewReport(prop, tier string, p *Prog) *Report {
